@@ -331,6 +331,14 @@ pub fn c08(m: &mut Mon, w: &mut World, _rng: &mut Rng) {
             }
         }
     }
+    // results nobody binds (`unused`) are recorded by their value's content id and the value is not stored: resolve
+    // them through the results the service stubs handed out
+    for p in w.peers.iter() {
+        for (rq, res, _) in p.consumed.values() {
+            let cid = air_interpreter_cid::raw_value_to_json_cid::<air_interpreter_data::RawValue>(res.1.as_bytes());
+            fn_of.entry(cid.get_inner().to_string()).or_insert_with(|| rq.function.clone());
+        }
+    }
     for (nm, k, t) in results.iter().skip(1) {
         if *k != k0 {
             let diff: Vec<String> = k0.keys().chain(k.keys()).filter(|c| k0.get(*c) != k.get(*c)).cloned().collect::<BTreeSet<_>>().into_iter().collect();
